@@ -59,9 +59,25 @@ fn main() {
         "dp" => dp::run_dp(&tier, seed, &mut out),
         "c06" => dp::run_c06(&tier, seed, &mut out),
         "c17" => conc::run_c17(&tier, seed, &mut out),
-        "c19" => conc::run_c19(&tier, seed, &mut out),
-        "apiorder" => apiorder::run_apiorder(&mut out),
-        "unixapi" => apiorder::run_unixapi(&mut out),
+        // streams whose cases wait on threads, sockets and the clock: a result that says a wait ran out (it
+        // can, on a loaded machine) is asked for again, twice at most; a defect that makes the wait run out
+        // does so every time and is reported all the same
+        "c19" | "apiorder" | "unixapi" => {
+            let mut buf: Vec<u8> = vec![];
+            for attempt in 0..3 {
+                buf.clear();
+                match args[1].as_str() {
+                    "c19" => conc::run_c19(&tier, seed, &mut buf),
+                    "apiorder" => apiorder::run_apiorder(&mut buf),
+                    _ => apiorder::run_unixapi(&mut buf),
+                }
+                let text = String::from_utf8_lossy(&buf);
+                let waited_out = ["did-not-return", "did-not-stop", "backlog-not-dispatched", "gave up", "cannot-bind", "] of ", "after-blocking"].iter().any(|m| text.contains(m));
+                if !waited_out || attempt == 2 { break; }
+                std::thread::sleep(std::time::Duration::from_millis(700));
+            }
+            out.write_all(&buf).unwrap();
+        }
         // re-evaluate given cases (corpus / replay / shrinking): stdin lines `cmd \t arg [\t ...]`
         "eval" => {
             let stdin = std::io::stdin();
